@@ -206,3 +206,16 @@ M("c17-dm-not-recorded", "C17", FC, "                    axis=0,\n              
 M("c17-reset-without-clear", "C17", FC, "            drifts = -1 * self._tph_shifts\n            self._tph_shifts.fill(0)\n            return drifts", "            drifts = -1 * self._tph_shifts\n            return drifts", "return to p0 does not clear the stored period shifts")
 M("c17-dm-binwidth-current-period", "C17", FC, "        tsamp = self._ref_period / self.nbins", "        tsamp = self.period / self.nbins", "DM shift uses the bin width of the current period: order of updates matters when rounding flips")
 M("c17-period-roll-index", "C17", FC, "                    -pdelays[isubint],", "                    -pdelays[isubint] if isubband < 2 else -pdelays[0],", "third and later sub-bands take the first sub-integration's period shift")
+
+# ---- C18
+PF = "sigpyproc/io/pfits.py"
+M("c18-read_block-nsubs", "C18", R, "        # Number of sub-integrations spanned by [start, start + nsamps)\n        nsubs = (\n            startsamp + nsamps + self.sub_hdr.subint_samples - 1", "        # Number of sub-integrations spanned by [start, start + nsamps)\n        nsubs = (\n            nsamps + self.sub_hdr.subint_samples - 1", "original F18a")
+M("c18-read_plan-block", "C18", R, "            data = data[startsamp : startsamp + block]", "            data = data[startsamp : startsamp + nsamps]", "original F18b")
+M("c18-coherence-float64", "C18", PF, "            scale = np.float32(1.0 / np.sqrt(2.0))", "            scale = 1.0 / np.sqrt(2.0)", "original F18c")
+M("c18-ascending-labels", "C18", H, "        if foff > 0:\n            fch1 += (subint_hdr.nchans - 1) * foff\n            foff = -foff\n", "", "original F18d (labels of ascending files)")
+M("c18-weights-first-row", "C18", PF, '        weights = self._fits["SUBINT"].data[isub]["DAT_WTS"]', '        weights = self._fits["SUBINT"].data[0]["DAT_WTS"]', "weights of the first sub-integration applied to every row")
+M("c18-scales-pol-order", "C18", PF, "        return scales.reshape(self.sub_hdr.npol, self.sub_hdr.nchans)", "        return scales.reshape(self.sub_hdr.nchans, self.sub_hdr.npol).T", "scale table read channel-major")
+M("c18-zero-off-ignored", "C18", PF, "            data -= self.sub_hdr.zero_off  # This will not work for 2-bit data.", "            data -= self.sub_hdr.zero_off if self.bitsinfo.nbits < 8 else 0", "ZERO_OFF ignored for 8-bit data")
+M("c18-nstot-ignored", "C18", PF, '        return self.header.get("NSTOT", self.subint_samples * self.nsubint)', "        return self.subint_samples * self.nsubint", "NSTOT ignored: padding of the last row delivered as data")
+M("c18-tstart-offs", "C18", PF, '            float(self.header["STT_OFFS"]),', "            0.0,", "fractional start second dropped")
+M("c18-stokes-pol", "C18", PF, '        elif self.sub_hdr.poln_state == "Stokes":\n            data = sdata[:, 0, :]', '        elif self.sub_hdr.poln_state == "Stokes":\n            data = sdata[:, 1, :]', "Stokes files deliver Q instead of I")
